@@ -9,6 +9,7 @@ import (
 	"fmt"
 	"os"
 	"strings"
+	"time"
 
 	"github.com/johnkerl/miller/v6/pkg/dsl/cst"
 
@@ -20,63 +21,64 @@ type witness struct {
 	expr string // DSL expression
 	rank int    // simplicity rank (for sizes)
 	core bool   // member of the reduced set used for arity 3 in the quick tier
+	lvl1 bool   // member of the set used for arity 2 in the quick tier (the thorough tier uses all for arity 2 and 3)
 }
 
 // The kinds named by the property, boundary numbers, and strings that are
 // meaningful to the parsers inside functions (regex, format, time, JSON).
 func witnesses() []witness {
 	ws := []witness{
-		{"0", `0`, 0, true},
-		{"1", `1`, 0, false},
-		{"-1", `-1`, 0, true},
-		{"minint", `(-9223372036854775807 - 1)`, 1, true},
-		{"maxint", `9223372036854775807`, 1, true},
-		{"0.5", `0.5`, 0, true},
-		{"NaN", `(0/0)`, 1, true},
-		{"+Inf", `(1/0)`, 1, false},
-		{"true", `true`, 0, true},
-		{"empty", `""`, 0, true},
-		{"abc", `"abc"`, 0, true},
-		{"[]", `[]`, 0, false},
-		{"[1,2]", `[1,2]`, 0, true},
-		{"{}", `{}`, 0, false},
-		{"map", `{"a":1,"b":2}`, 0, true},
-		{"funct1", `func(a) {return a}`, 1, true},
-		{"funct2", `func(a,b) {return 1}`, 1, false},
-		{"error", `(1+true)`, 1, true},
-		{"null", `null`, 0, true},
-		{"absent", `@nosuch`, 0, true},
+		{"0", `0`, 0, true, true},
+		{"1", `1`, 0, false, true},
+		{"-1", `-1`, 0, true, true},
+		{"minint", `(-9223372036854775807 - 1)`, 1, false, true},
+		{"maxint", `9223372036854775807`, 1, true, true},
+		{"0.5", `0.5`, 0, true, true},
+		{"NaN", `(0/0)`, 1, true, true},
+		{"+Inf", `(1/0)`, 1, false, true},
+		{"true", `true`, 0, true, true},
+		{"empty", `""`, 0, true, true},
+		{"abc", `"abc"`, 0, true, true},
+		{"[]", `[]`, 0, false, true},
+		{"[1,2]", `[1,2]`, 0, true, true},
+		{"{}", `{}`, 0, false, true},
+		{"map", `{"a":1,"b":2}`, 0, true, true},
+		{"funct1", `func(a) {return a}`, 1, true, true},
+		{"funct2", `func(a,b) {return 1}`, 1, false, true},
+		{"error", `(1+true)`, 1, true, true},
+		{"null", `null`, 0, false, true},
+		{"absent", `@nosuch`, 0, true, true},
 		// ---- beyond the property's list: more kinds and parser-relevant strings
-		{"bytes", `b"a\xff"`, 2, false},
-		{"-0.0", `-0.0`, 2, false},
-		{"1e300", `1e300`, 2, false},
-		{"64", `64`, 2, false},
-		{"nested", `[[1,{"a":[]}],"x"]`, 2, false},
-		{"mapmap", `{"a":{"b":1},"c":[1]}`, 2, false},
-		{"functkv", `func(k,v) {return {k:v}}`, 2, false},
-		{"funct4", `func(a,b,c,d) {return {a:b}}`, 2, false},
-		{"functbool", `func(a) {return true}`, 2, false},
-		{"s:(", `"("`, 2, true},
-		{"s:%d", `"%d"`, 2, false},
-		{"s:%", `"%"`, 2, false},
-		{"s:%08.3lf", `"%08.3lf"`, 2, false},
-		{"s:%s%s", `"%s:%s"`, 2, false},
-		{"s:{}", `"{}:{}"`, 2, false},
-		{"s:\\1", `"\1"`, 2, false},
-		{"s:(a)(b)?", `"(a)(b)?"`, 2, false},
-		{"s:a*", `"a*"`, 2, false},
-		{"s:.", `"."`, 2, false},
-		{"s:timefmt", `"%Y-%m-%dT%H:%M:%SZ"`, 2, false},
-		{"s:%j%", `"%j %1S %N %"`, 2, false},
-		{"s:time", `"1970-01-01T00:00:00Z"`, 2, false},
-		{"s:dhms", `"1d2h3m4s"`, 2, false},
-		{"s:-", `"-"`, 2, false},
-		{"s:0x", `"0x"`, 2, false},
-		{"s:tz", `"Asia/Tokyo"`, 2, false},
-		{"s:badutf8", `"\xffé"`, 2, true},
-		{"s:json", `"{\"a\":[1,"`, 2, false},
-		{"s:flags", `"nrfcvt"`, 2, false},
-		{"s:,", `","`, 2, false},
+		{"bytes", `b"a\xff"`, 2, false, true},
+		{"-0.0", `-0.0`, 2, false, false},
+		{"1e300", `1e300`, 2, false, false},
+		{"64", `64`, 2, false, false},
+		{"nested", `[[1,{"a":[]}],"x"]`, 2, false, true},
+		{"mapmap", `{"a":{"b":1},"c":[1]}`, 2, false, false},
+		{"functkv", `func(k,v) {return {k:v}}`, 2, false, false},
+		{"funct4", `func(a,b,c,d) {return {a:b}}`, 2, false, false},
+		{"functbool", `func(a) {return true}`, 2, false, false},
+		{"s:(", `"("`, 2, false, true},
+		{"s:%d", `"%d"`, 2, false, true},
+		{"s:%", `"%"`, 2, false, false},
+		{"s:%08.3lf", `"%08.3lf"`, 2, false, false},
+		{"s:%s%s", `"%s:%s"`, 2, false, false},
+		{"s:{}", `"{}:{}"`, 2, false, false},
+		{"s:\\1", `"\1"`, 2, false, true},
+		{"s:(a)(b)?", `"(a)(b)?"`, 2, false, false},
+		{"s:a*", `"a*"`, 2, false, false},
+		{"s:.", `"."`, 2, false, false},
+		{"s:timefmt", `"%Y-%m-%dT%H:%M:%SZ"`, 2, false, true},
+		{"s:%j%", `"%j %1S %N %"`, 2, false, false},
+		{"s:time", `"1970-01-01T00:00:00Z"`, 2, false, true},
+		{"s:dhms", `"1d2h3m4s"`, 2, false, false},
+		{"s:-", `"-"`, 2, false, true},
+		{"s:0x", `"0x"`, 2, false, false},
+		{"s:tz", `"Asia/Tokyo"`, 2, false, true},
+		{"s:badutf8", `"\xffé"`, 2, false, true},
+		{"s:json", `"{\"a\":[1,"`, 2, false, false},
+		{"s:flags", `"nrfcvt"`, 2, false, false},
+		{"s:,", `","`, 2, false, false},
 	}
 	return ws
 }
@@ -92,10 +94,10 @@ type callable struct {
 	fam    string // "func" or "stmt"
 	name   string
 	arity  int
-	accept bool                     // false: the table says this arity is not accepted (one tuple only: exercises the arity check)
+	accept bool                    // false: the table says this arity is not accepted (one tuple only: exercises the arity check)
 	render func(a []string) string // the put expression
-	main   bool                     // needs a record (main block) rather than -n end{}
-	heavy  bool                     // arity-3 statement templates use the reduced witness set in both tiers
+	main   bool                    // needs a record (main block) rather than -n end{}
+	heavy  bool                    // arity-3 statement templates use the reduced witness set in both tiers
 }
 
 func isLetterStart(s string) bool {
@@ -243,7 +245,7 @@ func stmtCallables() []callable {
 	add("emit-redirect-stdout", 1, true, `@r = §A; emit > stdout, @r`)
 	add("dump-redirect-stderr", 1, true, `@r = §A; dump > stderr, @r`)
 	add("nested-collections", 1, true, `$new = [§A, {"k": §A}, [[§A]]]`)
-	add("json-roundtrip", 1, true, `$new = json_decode(json_encode(§A))`)
+	add("json-roundtrip", 1, true, `$new = json_parse(json_stringify(§A)) . json_stringify(§A, "multiline")`)
 	add("sort-by-funct", 1, true, `$new = sort([3,1,2], §A)`)
 	add("sort-map-by-funct", 1, true, `$new = sort({"b":1,"a":2}, §A)`)
 	add("fold-with", 1, true, `$new = fold([1,2,3], func(acc,e) {return acc . e}, §A)`)
@@ -271,7 +273,7 @@ func stmtCallables() []callable {
 	add("field-slice", 2, true, `$y = §A; $new = $y[§B:§B]`)
 	add("dot-assign", 2, true, `t = §A; t .= §B; $new = t`)
 	add("coalesce-assign", 2, true, `t = §A; t ??= §B; t ???= §B; $new = t`)
-	add("min-max-assign", 2, true, `t = §A; t min= §B; u = §A; u max= §B; $new = t . u`)
+	add("plus-minus-times-assign", 2, true, `t = §A; t += §B; u = §A; u -= §B; v = §A; v *= §B; w = §A; w /= §B; $new = t . u . v . w`)
 	add("shift-assign", 2, true, `t = §A; t <<= §B; u = §A; u >>>= §B; $new = t . u`)
 	add("arith-assign", 2, true, `t = §A; t //= §B; u = §A; u %= §B; v = §A; v **= §B; $new = t . u . v`)
 	add("logic-assign", 2, true, `t = §A; t &&= §B; u = §A; u ||= §B; v = §A; v ^^= §B; $new = t . u . v`)
@@ -306,26 +308,28 @@ func stmtCallables() []callable {
 	return out
 }
 
-func funcBlock(arity, nw int) int {
-	// one Mine index per block of tuples
-	return 128
-}
-
 func funcsWorker(w *vf.Worker) {
-	x := newRunner(w)
+	x := newRunner(w, 3, 6*time.Second)
 	ws := witnesses()
-	var core []int
+	var core, lvl1 []int
 	all := make([]int, len(ws))
 	for i := range ws {
 		all[i] = i
 		if ws[i].core {
 			core = append(core, i)
 		}
+		if ws[i].lvl1 {
+			lvl1 = append(lvl1, i)
+		}
 	}
 	fcs, denied := funcCallables()
 	calls := append(fcs, stmtCallables()...)
 	only := strings.TrimSpace(envOr("VERIF_C18_FUNC", ""))
-	var idx uint64
+	// Sharding is per callable (all tuples of one function/arity run in one
+	// shard, in order), so that a function whose tuples kill workers holds up
+	// one shard instead of all of them: idx = (block*M + n)*NShards + shard.
+	NS := uint64(w.NShards)
+	const M = 1 << 18
 	witHits := make([]int64, len(ws))
 	tup := make([]int, 0, 3)
 	for ci := range calls {
@@ -333,10 +337,16 @@ func funcsWorker(w *vf.Worker) {
 		if only != "" && cl.name != only {
 			continue
 		}
+		shard, base := uint64(ci)%NS, (uint64(ci)/NS)*M
+		if w.Only < 0 && shard != uint64(w.Shard) {
+			continue
+		}
 		// witness set for this callable
 		set := all
 		if cl.arity == 3 && (w.Quick() || cl.heavy) {
 			set = core
+		} else if cl.arity == 2 && w.Quick() {
+			set = lvl1
 		}
 		k := len(set)
 		total := uint64(1)
@@ -348,69 +358,68 @@ func funcsWorker(w *vf.Worker) {
 		}
 		cfg := cl.name + "/" + fmt.Sprint(cl.arity)
 		var nEvaluated, nRuns int64
-		for start := uint64(0); start < total; start += 128 {
-			idx++
+		for n := uint64(0); n < total; n++ {
+			idx := (base+n)*NS + shard
 			if !w.Mine(idx) {
 				continue
 			}
 			w.Begin(idx)
-			end := start + 128
-			if end > total {
-				end = total
+			tup = tup[:0]
+			r := n
+			for i := 0; i < cl.arity; i++ {
+				tup = append(tup, 0)
 			}
-			for n := start; n < end; n++ {
-				tup = tup[:0]
-				r := n
-				for i := 0; i < cl.arity; i++ {
-					tup = append(tup, 0)
+			for i := cl.arity - 1; i >= 0; i-- {
+				tup[i] = set[int(r%uint64(k))]
+				r /= uint64(k)
+			}
+			if !cl.accept {
+				for i := range tup {
+					tup[i] = 1 // the int 1
 				}
-				for i := cl.arity - 1; i >= 0; i-- {
-					tup[i] = set[int(r%uint64(k))]
-					r /= uint64(k)
+			}
+			exprs := make([]string, cl.arity)
+			names := make([]string, cl.arity)
+			size := cl.arity * 100
+			for i, wi := range tup {
+				exprs[i] = ws[wi].expr
+				names[i] = ws[wi].name
+				size += ws[wi].rank*10 + 1
+			}
+			prog := cl.render(exprs)
+			m := &mcase{Fam: cl.fam, Cfg: cfg, Size: size, Desc: "<" + strings.Join(names, " ; ") + ">", Tuple: names}
+			if cl.main {
+				m.Args = []string{"--ojson", "put", prog}
+				m.Stdin = "x=3,y=abc,z=\n"
+			} else {
+				m.Args = []string{"-n", "put", prog}
+			}
+			if x.poisoned(m) {
+				continue
+			}
+			for _, wi := range tup {
+				witHits[wi]++
+			}
+			oc := x.run(m)
+			nRuns++
+			past := !(oc.class == ocMlrErr && (strings.Contains(oc.stderr, "cannot parse DSL") || strings.Contains(oc.stderr, "function name not found") || strings.Contains(oc.stderr, "invoked with")))
+			if past {
+				nEvaluated++
+				w.Nontrivial(1)
+			}
+			res := oc.class
+			if oc.class == ocOK && cl.fam == "func" {
+				if i := strings.IndexByte(oc.stdout, '\n'); i > 0 {
+					res = "returns-" + oc.stdout[:i]
 				}
-				if !cl.accept {
-					for i := range tup {
-						tup[i] = 1 // the int 1
-					}
-				}
-				exprs := make([]string, cl.arity)
-				names := make([]string, cl.arity)
-				size := cl.arity * 100
-				for i, wi := range tup {
-					exprs[i] = ws[wi].expr
-					names[i] = ws[wi].name
-					size += ws[wi].rank*10 + 1
-					witHits[wi]++
-				}
-				prog := cl.render(exprs)
-				m := &mcase{Fam: cl.fam, Cfg: cfg, Size: size, Desc: "<" + strings.Join(names, " ; ") + ">"}
-				if cl.main {
-					m.Args = []string{"--ojson", "put", prog}
-					m.Stdin = "x=3,y=abc,z=\n"
-				} else {
-					m.Args = []string{"-n", "put", prog}
-				}
-				oc := x.run(m)
-				nRuns++
-				past := !(oc.class == ocMlrErr && (strings.Contains(oc.stderr, "cannot parse DSL") || strings.Contains(oc.stderr, "function name not found") || strings.Contains(oc.stderr, "invoked with")))
-				if past {
-					nEvaluated++
-					w.Nontrivial(1)
-				}
-				res := oc.class
-				if oc.class == ocOK && cl.fam == "func" {
-					if i := strings.IndexByte(oc.stdout, '\n'); i > 0 {
-						res = "returns-" + oc.stdout[:i]
-					}
-				}
-				if cl.fam == "func" {
-					w.AddSet("func-outcomes", cl.name+":"+res)
-				} else {
-					w.AddSet("func-outcomes", "stmt:"+cl.name+":"+oc.class)
-				}
-				if oc.class == ocBareErr || oc.class == ocSilentNZ {
-					w.AddSet("bare-error-texts", cl.fam+"/"+cl.name+": "+short(strings.TrimSpace(firstLines(oc.stderr, 1)), 100))
-				}
+			}
+			if cl.fam == "func" {
+				w.AddSet("func-outcomes", cl.name+":"+res)
+			} else {
+				w.AddSet("func-outcomes", "stmt:"+cl.name+":"+oc.class)
+			}
+			if oc.class == ocBareErr || oc.class == ocSilentNZ {
+				w.AddSet("bare-error-texts", cl.fam+"/"+cl.name+": "+short(strings.TrimSpace(firstLines(oc.stderr, 1)), 100))
 			}
 		}
 		if nRuns > 0 {
@@ -424,8 +433,8 @@ func funcsWorker(w *vf.Worker) {
 	for i, h := range witHits {
 		w.Count("witness:"+ws[i].name, h)
 	}
-	if w.Mine(0) && w.Shard == 0 {
-		w.Sample(map[string]any{"family": "func", "table_entries_x_arities": len(fcs), "statement_templates": len(calls) - len(fcs), "witnesses": len(ws), "core_witnesses_for_arity3_quick": len(core), "denied": denied,
+	if w.Shard == 0 {
+		w.Sample(map[string]any{"family": "func", "table_entries_x_arities": len(fcs), "statement_templates": len(calls) - len(fcs), "witnesses": len(ws), "core_witnesses_for_arity3_quick": len(core), "witnesses_for_arity2_quick": len(lvl1), "denied": denied,
 			"example": calls[len(fcs)/2].render([]string{ws[3].expr, ws[12].expr, ws[10].expr}[:calls[len(fcs)/2].arity])})
 	}
 	_ = vf.Root
